@@ -390,6 +390,10 @@ def c07(c):
             units.append(dict(name=nm, srcs=[D + "c07_memaccess.cpp"], build=b, defs=EXC + ["CFG=vsbx_" + n]))
             for part in range(4):
                 runs.append(dict(unit=nm, label="%s[p%d]" % (nm, part), args=[part], count_distinct=(tag == "asan")))
+    # whole-array stores whose source array overlaps the destination (both pointers are the sandbox's)
+    for b in ("asan", "plain"):
+        units.append(dict(name="c07_overlap_" + b, srcs=[D + "c10_overlap.cpp"], build=b, defs=EXC + ["PROP_C07"]))
+        runs.append(dict(unit="c07_overlap_" + b, label="c07_overlap[%s]" % b, count_distinct=False))
     # debug configuration (RLBOX_ENABLE_DEBUG_ASSERTIONS): same verdicts required; quick: the pointer and struct-field part only
     units.append(dict(name="c07_ilp32_dbgassert", srcs=[D + "c07_memaccess.cpp"], build="asan0", defs=EXC + ["CFG=vsbx_ilp32", "RLBOX_ENABLE_DEBUG_ASSERTIONS"]))
     for part in ([3] if not c.thorough else range(4)):
@@ -479,6 +483,14 @@ def c10(c):
     # the copy path of copy_memory_or_grant_access with a hostile allocator answer (block that starts inside and ends outside)
     units.append(dict(name="c10_alloc", srcs=[D + "c10_alloc.cpp"], build="asan", defs=EXC))
     runs.append(dict(unit="c10_alloc", label="c10_alloc[ilp32m,unconfined]"))
+    # ... and under the WIDE ABI, where short / char16_t buffers take the element-wise copy (no inner rlbox::memcpy re-checks the range)
+    units.append(dict(name="c10_alloc_wide", srcs=[D + "c10_alloc.cpp"], build="asan", defs=EXC + ["CFG=vsbx_wide"]))
+    runs.append(dict(unit="c10_alloc_wide", label="c10_alloc[wide,unconfined]"))
+    # source and destination of rlbox::memcpy overlapping inside the sandbox (both are sandbox-chosen pointers); -O2 too, where
+    # the C library's memcpy copies in an order that smears overlapping ranges
+    for b in ("asan", "plain"):
+        units.append(dict(name="c10_overlap_" + b, srcs=[D + "c10_overlap.cpp"], build=b, defs=EXC))
+        runs.append(dict(unit="c10_overlap_" + b, label="c10_overlap[%s]" % b))
     # size operands wider than size_t (GNU dialect: __int128)
     units.append(dict(name="c10_wideint", srcs=[D + "c10_wideint.cpp"], build="asan", defs=EXC, flags=["-std=gnu++17"]))
     runs.append(dict(unit="c10_wideint", label="c10_wideint[gnu++17]"))
